@@ -37,7 +37,7 @@ def r12(ctx, prog):
     ctx.rule('C19.R12', 'A10 linear bound proofs: every indexed access through a caller\'s buffer (ptr, size) in the Base64 / hex / scalable-integer / checksum units '
              'satisfies 0 <= index <= size - 1, decided from affine forms of the index (parameters, current values of loop counters), the controlling guards that still '
              'hold at the access, monotone counters (index - start or start - index >= 0), unsigned != 0 and alignment tests ((x & 3) == 0 with x >= 1 gives x >= 4); '
-             'the form minus at most three facts must be non-negative term by term. Cursor-counted outputs are decided by R11/R13 instead', floor=10)
+             'the form minus at most three facts must be non-negative term by term. Cursor-counted outputs are decided by R11/R13 instead', floor=6)
     n = 0
     used = set()
     undecided = []
@@ -76,8 +76,8 @@ def r12(ctx, prog):
     missing = set(COUNTED) - used
     if missing:
         raise AnalysisBroken('table entries without a matching function/parameter: %s' % sorted(missing))
-    if n < 10:
-        raise AnalysisBroken('expected >= 10 indexed accesses through (ptr, size) buffers, saw %d' % n)
+    if n < 6:
+        raise AnalysisBroken('expected >= 6 indexed accesses through (ptr, size) buffers, saw %d' % n)
 
 
 def r13(ctx, prog):
